@@ -130,6 +130,75 @@ func (cr *checkRun) frozenChecks() {
 	}
 }
 
+// statelessCheck: no function of the given packages (outside the package initialisers and their
+// private helpers) stores to a package-level variable, directly or through an address derived
+// from one. The packages then have no state that survives a call: the outcome of Verify /
+// Repair / Create is a function of their arguments and of the file system only.
+func (cr *checkRun) statelessCheck(pkgs []string) {
+	for _, pp := range pkgs {
+		var pkg *ssa.Package
+		for _, p := range cr.e.prog.AllPackages() {
+			if p.Pkg.Path() == pp {
+				pkg = p
+			}
+		}
+		o := &Oblig{Fn: "stateless", Name: "stateless:" + pp[strings.LastIndex(pp, "/")+1:] + "#no-store-to-package-variables-outside-init", Kind: "stateless", preSolved: true, goal: TFalse, Solver: "SSA scan of every function of the package"}
+		cr.obs = append(cr.obs, o)
+		if pkg == nil {
+			o.Status, o.Detail = "unknown", "package not loaded"
+			continue
+		}
+		initOnly := initOnlyFunctions(cr.e, pkg)
+		var bad []string
+		n := 0
+		for fn := range ssautilAllFunctions(cr.e) {
+			if fn.Pkg != pkg || fn.Synthetic != "" || initOnly[fn] || (strings.HasPrefix(fn.Name(), "init") && fn.Signature.Recv() == nil) {
+				continue
+			}
+			if pos := cr.e.prog.Fset.Position(fn.Pos()); strings.HasSuffix(pos.Filename, "_test.go") || strings.Contains(pos.Filename, "verif_contracts") {
+				continue
+			}
+			n++
+			for _, b := range fn.Blocks {
+				for _, ins := range b.Instrs {
+					loadedFromGlobal := func(v ssa.Value) *ssa.Global {
+						if u, ok := v.(*ssa.UnOp); ok && u.Op == token.MUL {
+							if g, ok := addrBase(u.X).(*ssa.Global); ok {
+								return g
+							}
+						}
+						return nil
+					}
+					switch st := ins.(type) {
+					case *ssa.Store:
+						if g, isG := addrBase(st.Addr).(*ssa.Global); isG {
+							bad = append(bad, fn.String()+" stores to "+g.Name()+" at "+cr.e.prog.Fset.Position(st.Pos()).String())
+						} else if root := addrRoot(st.Addr); root != nil {
+							if g := loadedFromGlobal(root); g != nil {
+								bad = append(bad, fn.String()+" stores into the slice/pointer held by "+g.Name()+" at "+cr.e.prog.Fset.Position(st.Pos()).String())
+							}
+						}
+					case *ssa.MapUpdate:
+						if g := loadedFromGlobal(st.Map); g != nil {
+							bad = append(bad, fn.String()+" updates the map held by "+g.Name()+" at "+cr.e.prog.Fset.Position(st.Pos()).String())
+						}
+					}
+				}
+			}
+		}
+		o.Cases = int64(n)
+		if len(bad) == 0 {
+			o.Status = "proved"
+			o.Detail = fmt.Sprintf("%d functions scanned", n)
+		} else {
+			sort.Strings(bad)
+			o.Status = "refuted"
+			o.Model = strings.Join(bad, "\n")
+			o.Replayed = true
+		}
+	}
+}
+
 func ssautilAllFunctions(e *Engine) map[*ssa.Function]bool {
 	if e.allFns == nil {
 		e.allFns = ssautil.AllFunctions(e.prog)
@@ -140,6 +209,10 @@ func ssautilAllFunctions(e *Engine) map[*ssa.Function]bool {
 func (cr *checkRun) extraChecks(verif string) {
 	cr.evalLemmaChecks()
 	writers := []string{"io/ioutil.WriteFile", "os.WriteFile", "os.Create", "os.OpenFile", "os.Remove", "os.Rename", "os.Mkdir", "os.Truncate", "os.Chmod", "os.Symlink", "os.Link", "(*os.File).Write"}
+	switch cr.prop {
+	case "C14", "C16", "C17":
+		cr.statelessCheck([]string{"github.com/akalin/gopar/par1", "github.com/akalin/gopar/par2", "github.com/akalin/gopar/rsec16", "github.com/akalin/gopar/gf2p16", "github.com/akalin/gopar/gf2"})
+	}
 	switch cr.prop {
 	case "C02", "C14":
 		// Verify modifies nothing: no write primitive and no fileIO.WriteFile is reachable from verify
